@@ -25,6 +25,16 @@ impl Arena {
             *p.add(5) = 0xC3;
         }
     }
+    /// `endbr64 ; mov eax, marker ; ret`: a function compiled with -fcf-protection (CET landing pad first)
+    pub fn put_fn_cet(&self, addr: u64, marker: u32) {
+        assert!(addr >= self.base && addr + 10 <= self.base + self.len as u64);
+        unsafe {
+            let p = addr as *mut u8;
+            std::ptr::copy_nonoverlapping([0xF3u8, 0x0F, 0x1E, 0xFA, 0xB8].as_ptr(), p, 5);
+            std::ptr::copy_nonoverlapping(marker.to_le_bytes().as_ptr(), p.add(5), 4);
+            *p.add(9) = 0xC3;
+        }
+    }
     pub fn seal(&self) { unsafe { raw_mprotect(self.base as *mut libc::c_void, self.len, libc::PROT_READ | libc::PROT_EXEC); } }
     pub fn unseal(&self) { unsafe { raw_mprotect(self.base as *mut libc::c_void, self.len, libc::PROT_READ | libc::PROT_WRITE); } }
 }
